@@ -34,6 +34,8 @@ func evkParamsOf(ch mp.Chain, tier string) []evkp {
 		r = []evkp{{lqMax, -1, 0}, {lqMax, -1, 7}, {lqMax, -1, 16}, {0, -1, 16}, {0, -1, 0}}
 	case "big":
 		r = []evkp{{lqMax, lpMax, 0}, {lqMax, lpMax, 16}, {0, lpMax, 7}}
+	case "big61": // 3 Q, 2 P of 60..61 bits
+		r = []evkp{{lqMax, lpMax, 0}, {lqMax, 0, 16}, {1, 0, 0}}
 	}
 	return r
 }
@@ -68,7 +70,7 @@ func galElsOf(ch mp.Chain, all bool) []uint64 {
 func catalogue(tier string) []cfg {
 	th := tier == "thorough"
 	var r []cfg
-	chains := []mp.Chain{mp.ChainMid, mp.ChainMixed, mp.ChainMixup, mp.ChainNoP, mp.ChainBig, mp.ChainMidCI, mp.ChainMixedCI, mp.ChainNoPCI}
+	chains := []mp.Chain{mp.ChainMid, mp.ChainMixed, mp.ChainMixup, mp.ChainNoP, mp.ChainBig, mp.ChainBig61, mp.ChainMidCI, mp.ChainMixedCI, mp.ChainNoPCI}
 	fullMax := 4
 	if th {
 		fullMax = 5
@@ -117,7 +119,7 @@ func catalogue(tier string) []cfg {
 	for _, ch := range chains {
 		for _, e := range evkParamsOf(ch, tier) {
 			ns := []int{1, 2, 3}
-			if th || ch.Name == "mid" || ch.Name == "mixed" || ch.Name == "midci" {
+			if th || ch.Name == "mid" || ch.Name == "mixed" || ch.Name == "midci" || ch.Name == "big61" {
 				ns = []int{1, 2, 3, 4}
 			}
 			if th && ch.Name == "mid" && e.lq == lqMax && e.b2 != 7 {
@@ -141,6 +143,20 @@ func catalogue(tier string) []cfg {
 		r = append(r, cfg{proto: proto, chain: mp.ChainMixed, ntt: true, n: 6, mode: mp.LeftDeep, bound: ld, lq: lqMax, lp: lpMax, b2: 16, galEl: 5})
 		r = append(r, cfg{proto: proto, chain: mp.ChainNoP, ntt: true, n: 8, mode: mp.LeftDeep, bound: ld - 1, lq: lqMax, lp: -1, b2: 7, galEl: 5})
 		r = append(r, cfg{proto: proto, chain: mp.ChainMixedCI, ntt: true, n: 7, mode: mp.LeftDeep, bound: ld - 1, lq: lqMax, lp: lpMax, b2: 0, galEl: 5})
+	}
+	// 60/61-bit primes in Q and P with 5..8 parties: where sums of lazily reduced shares would first leave 64 bits
+	for _, proto := range []string{"cpk", "rlk1", "rlk2", "evk", "gal"} {
+		for _, n := range []int{5, 6, 7, 8} {
+			for _, e := range []evkp{{lqMax, lpMax, 0}, {lqMax, 0, 16}} {
+				if proto == "cpk" && e.b2 != 0 {
+					continue
+				}
+				r = append(r, cfg{proto: proto, chain: mp.ChainBig61, ntt: true, n: n, mode: mp.LeftDeep, bound: ld - 1, lq: e.lq, lp: e.lp, b2: e.b2, galEl: 5})
+			}
+		}
+		if proto != "cpk" {
+			r = append(r, cfg{proto: proto, chain: mp.ChainBig61, ntt: true, n: 5, mode: mp.Adjacent, bound: 0, lq: lqMax, lp: lpMax, b2: 0, galEl: 27})
+		}
 	}
 	// GAL: every Galois element of the group on the default parameters; in thorough also on the unequal-size chain
 	for _, ch := range []mp.Chain{mp.ChainMid, mp.ChainMixed, mp.ChainMidCI, mp.ChainMixedCI, mp.ChainNoPCI} {
